@@ -73,6 +73,10 @@ STATEMENT_STATUS = {
     "roman_translated": "proved for every integer: format_int_roman assembled from the translated assert/test/body/tail = hand model",
     "roman_translated_correct": "proved for EVERY n >= 1: the translated code writes the subtractive-notation numeral",
     "roman_translated_outside": "proved: the translated assert raises for n <= 0",
+    "format_page_label_translated": "proved for every value and style: the TRANSLATED if/elif chain of _format_page_label over the "
+                                    "translated numeral functions = hand model",
+    "labels_range_translated": "proved: a non-final range of PageLabels.labels from the TRANSLATED St/P defaults, range_length and "
+                               "range(...) = the hand model's generator",
     "alpha_body_translated": "proved for every positive value and partial result: one pass of the TRANSLATED while body of "
                              "format_int_alpha (never IndexError)",
     "alpha_translated": "proved for every integer: format_int_alpha assembled from the translated pieces = hand model",
@@ -1874,6 +1878,19 @@ def run_formatters(ctx: C.Ctx, batch: Batch) -> None:
                 bad = (n, exp, got)
                 ctx.fail(C.Failure("format_int_roman differs from the subtractive-notation numeral",
                                    {"kind": "roman", "value": n}, exp, got, {"component": "roman"}))
+    # PageLabels._format_page_label itself (static method) against the translated if/elif chain (gen.label)
+    from pdfminer.pdfdocument import PageLabels
+    from pdfminer.psparser import LIT
+    for _ in range(ctx.n(400, 4000)):
+        st = ctx.rng.choice(["D", "R", "r", "A", "a", "-", "D", "R", "r", "A", "a", "x", "d", "Roman", "AA"])
+        v = ctx.rng.choice([ctx.rng.randint(-3, 60), ctx.rng.randint(1, 5000), ctx.rng.randint(1, 10 ** 6)])
+        try:
+            got = cps(PageLabels._format_page_label(v, None if st == "-" else LIT(st)))
+        except Exception as e:  # noqa: BLE001
+            got = "E:" + type(e).__name__
+        ctx.case(("fmt", st, v), True, branch="translated:_format_page_label:" + (st if len(st) == 1 else "other")
+                 + (":raises" if got.startswith("E:") else ""))
+        batch.add("gen.label %s %d" % (st, v), "gen.label", {"kind": "fmt", "style": st, "value": v}, got, "model")
     # alpha
     top = ctx.n(3000, 60000)
     first_bad = None
